@@ -226,7 +226,8 @@ def check(run):
     rnd = random.Random(run.seed * 29 + 4)
     thorough = run.tier == 'thorough'
     files = [gen_file(rnd, with_custom=(n % 3 != 0)) for n in range(2500 if thorough else 100)]
-    cases = [{'mode': 'parse', 'file': lines, 'custom': ['EDGE_DIST_A', 'EDGE_DIST_B']} for lines, _ in files]
+    shadow = [n % 5 == 4 for n in range(len(files))]      # every fifth file is read with a custom type that shadows the built-in EDGE_SE2 tag
+    cases = [{'mode': 'parse', 'file': lines, 'custom': ['EDGE_DIST_A', 'EDGE_DIST_B'] + (['EDGE_SE2'] if sh else [])} for (lines, _), sh in zip(files, shadow)]
     old = EC.headroom_class
     EC.headroom_class = lambda c: (id(c),)
     try:
@@ -238,7 +239,7 @@ def check(run):
     try:
         for n, ((c, obs), (lines, tab)) in enumerate(zip(pairs, files)):
             run.replayed += 1
-            has_custom = any(ln and ln[0][0] == 'tag' and ln[0][1].startswith('EDGE_DIST') for ln in lines)
+            has_custom = any(ln and ln[0][0] == 'tag' and ln[0][1].startswith('EDGE_DIST') for ln in lines) or shadow[n]
             text = render(lines, tab, rnd)
             path = os.path.join(tmpdir, 'f%d.g2o' % n)
             with open(path, 'w', newline='') as f:
@@ -248,10 +249,10 @@ def check(run):
             stats['junk_lines'] += sum(1 for ln in lines if ln and ln[0][0] == 'junk')
             stats['blank_lines'] += sum(1 for ln in lines if not ln)
             stats['crlf_files'] += '\r\n' in text
-            key = dict(custom=has_custom)
+            key = dict(custom=has_custom, shadowed_builtin_tag=shadow[n])
             run.count(key=n, nontrivial=True)
             try:
-                g, logs = load_with_log(Graph.from_g2o, path, custom_edge_types=[GG.DistEdgeA, GG.DistEdgeB])
+                g, logs = load_with_log(Graph.from_g2o, path, custom_edge_types=[GG.DistEdgeA, GG.DistEdgeB] + ([GG.ShadowSE2] if shadow[n] else []))
             except Exception as ex:  # noqa
                 run.violation(dict(key, outcome='raised'), 'Graph.from_g2o raised %r on a well-formed file' % (ex,), dict(file=text))
                 continue
